@@ -194,6 +194,9 @@ def main():
             for v in list(vals[p.name]) + extras:
                 kw = {p.name: v}
                 if p.name == "stdin":
+                    # piped input without an explicit source (the CLI then reads stdin by itself), and with it
+                    jobs.append((sub, pos, dict(kw)))
+                    jobs.append((sub, pos, dict(kw, output_format="pep440")))
                     kw["source"] = "stdin"
                 jobs.append((sub, pos, kw))
         # a failing command must raise
@@ -206,6 +209,7 @@ def main():
             va, vb = vals[a][0], vals[b][-1]
             kw = {a: va, b: vb}
             if "stdin" in kw and "source" not in kw:
+                jobs.append((sub, pos, dict(kw)))
                 kw["source"] = "stdin"
             jobs.append((sub, pos, kw))
         if tier == "thorough":
